@@ -84,7 +84,7 @@ type deferred struct {
 }
 
 type Frame struct {
-	hosted bool // an inlined helper without a contract that now contains loops the top function's contract describes
+	hosted   bool // an inlined helper without a contract that now contains loops the top function's contract describes
 	fi       *FuncInfo
 	info     *types.Info
 	pkg      *packages.Package
@@ -105,50 +105,51 @@ type Frame struct {
 }
 
 type Exec struct {
-	exitOnly map[*ast.BlockStmt]bool // blocks of the loop body being analysed that always leave the loop
-	curInst     []types.Type            // type arguments of the generic callee whose contract is being applied
-	addrCells   map[*ast.UnaryExpr]Term // &x.fld arguments of the call being executed -> their cell
-	assignLHS   string
-	specDefs    map[string]*specDef
-	sliceOrig   map[string]*sliceOrigin
-	prog        *Program
-	vc          *VC
-	mode        string // "seq" | "conc"
-	obs         []*Obligation
-	obIndex     map[string]*Obligation
-	guards      []string
-	fnName      string // function under verification (display name)
-	topCon      *Contract
-	stack       []string // inlining stack (FullName)
-	init0       map[string]Term
-	notes       []string
-	noteSet     map[string]bool
-	dropped     map[string]bool
-	externs     map[string]bool
-	inlined     map[string]bool
-	havocs      map[string]bool
-	maxInl      int
-	errors      []string
-	safety      bool
-	curPos      string
-	axiomsDone  bool
-	epochN      int
-	qn          int
-	usedMonitor bool
-	globalVal   map[string]Term
-	lockSnap    *State
-	allocKinds  map[string]bool
-	axiomText   map[string]string
-	knownLen    map[string]int
-	callOrd     map[*ast.CallExpr]string
-	effRecvType types.Type
-	effSubst    map[*types.TypeParam]types.Type
-	relSnap     map[string]*State
-	acqSnap     map[string]*State
-	spawns      []spawned
-	inSpawn     bool
-	methodVals  map[string]methodVal
-	litVals     map[string]*ast.FuncLit
+	exitOnly     map[*ast.BlockStmt]bool // blocks of the loop body being analysed that always leave the loop
+	curInst      []types.Type            // type arguments of the generic callee whose contract is being applied
+	addrCells    map[*ast.UnaryExpr]Term // &x.fld arguments of the call being executed -> their cell
+	assignLHS    string
+	assignLHSVal string // current value of that left-hand side (a local alias of it is the same slice)
+	specDefs     map[string]*specDef
+	sliceOrig    map[string]*sliceOrigin
+	prog         *Program
+	vc           *VC
+	mode         string // "seq" | "conc"
+	obs          []*Obligation
+	obIndex      map[string]*Obligation
+	guards       []string
+	fnName       string // function under verification (display name)
+	topCon       *Contract
+	stack        []string // inlining stack (FullName)
+	init0        map[string]Term
+	notes        []string
+	noteSet      map[string]bool
+	dropped      map[string]bool
+	externs      map[string]bool
+	inlined      map[string]bool
+	havocs       map[string]bool
+	maxInl       int
+	errors       []string
+	safety       bool
+	curPos       string
+	axiomsDone   bool
+	epochN       int
+	qn           int
+	usedMonitor  bool
+	globalVal    map[string]Term
+	lockSnap     *State
+	allocKinds   map[string]bool
+	axiomText    map[string]string
+	knownLen     map[string]int
+	callOrd      map[*ast.CallExpr]string
+	effRecvType  types.Type
+	effSubst     map[*types.TypeParam]types.Type
+	relSnap      map[string]*State
+	acqSnap      map[string]*State
+	spawns       []spawned
+	inSpawn      bool
+	methodVals   map[string]methodVal
+	litVals      map[string]*ast.FuncLit
 }
 
 type spawned struct {
@@ -609,13 +610,18 @@ func (e *Exec) stmt(s ast.Stmt, st *State, fr *Frame) Flow {
 		return Flow{norm: st}
 	case *ast.AssignStmt:
 		// x = append(x[:i], ...): the variable the sub-slice was cut from is overwritten with the result (delete idiom)
-		saved := e.assignLHS
-		e.assignLHS = ""
+		saved, savedV := e.assignLHS, e.assignLHSVal
+		e.assignLHS, e.assignLHSVal = "", ""
 		if len(x.Lhs) == 1 && len(x.Rhs) == 1 && x.Tok == token.ASSIGN {
 			e.assignLHS = exprText(x.Lhs[0])
+			if id, ok := unparen(x.Lhs[0]).(*ast.Ident); ok && id.Name != "_" {
+				if _, isCall := unparen(x.Rhs[0]).(*ast.CallExpr); isCall {
+					e.assignLHSVal = e.eval(id, e.ctx(st, fr)).S
+				}
+			}
 		}
 		e.assignStmt(x, st, fr)
-		e.assignLHS = saved
+		e.assignLHS, e.assignLHSVal = saved, savedV
 		return Flow{norm: st}
 	case *ast.IncDecStmt:
 		c := e.ctx(st, fr)
